@@ -63,7 +63,7 @@ Inductive item : Type :=
 | TrigRet (n : nat) (e : ev) (r : res)     (* the trigger of e awaited by a callback of frame n returned r *)
 | GBegin (n : nat) (e : ev)                (* ghost: processing of arrival n begins *)
 | GFin (n : nat) (x : option nat)          (* ghost: frame n reaches its finally-block; x = recorded error *)
-| GEnd (n : nat) (r : res)                 (* ghost: processing of arrival n is over *)
+| GEnd (n : nat) (e : ev) (r : res)        (* ghost: processing of arrival n (event e) is over *)
 | GSet (n : nat) (m : model) (d : st)      (* ghost: frame n set the state of m *)
 | GPass (n : nat) (by_task : ev) (targets : list ev)    (* ghost: conditions of frame n passed *)
 | GCancel (n : nat) (e : ev)               (* ghost: the suspended callback of frame n received CancelledError *)
@@ -73,14 +73,14 @@ Inductive item : Type :=
 Definition item_no (it : item) : nat :=
   match it with
   | Start n _ _ _ _ | End_ n _ _ _ _ | Raised n _ _ _ _ | TrigRet n _ _ | GBegin n _
-  | GFin n _ | GEnd n _ | GSet n _ _ | GPass n _ _ | GCancel n _ | GCreq n => n
+  | GFin n _ | GEnd n _ _ | GSet n _ _ | GPass n _ _ | GCancel n _ | GCreq n => n
   end.
 
 (* what a frame may still emit once it has reached its finally-block *)
 Definition fin_item (it : item) : bool :=
   match it with
   | Start _ _ _ slot _ | End_ _ _ _ slot _ | Raised _ _ _ slot _ => Nat.eqb slot FIN
-  | TrigRet _ _ _ | GFin _ _ | GEnd _ _ | GCancel _ _ | GCreq _ => true
+  | TrigRet _ _ _ | GFin _ _ | GEnd _ _ _ | GCancel _ _ | GCreq _ => true
   | GBegin _ _ | GSet _ _ _ | GPass _ _ _ => false
   end.
 
@@ -355,7 +355,7 @@ Section Model.
                 | [] =>
                     if f_fin f then
                       let c' := frame_outcome f in
-                      let it := GEnd (f_no f) (ctl_res c') in
+                      let it := GEnd (f_no f) (f_ev f) (ctl_res c') in
                       let f' := femit f it in
                       let '(stk, c'', h') := after_frame k c' rest (add_done (emit h it) f' (ctl_res c')) in
                       (set_stack t stk, c'', h', Continue)
@@ -623,3 +623,42 @@ Definition fin_instr (i : instr) : bool := match i with ICb _ slot _ => Nat.eqb 
 Definition dest_ok (n : nat) (i : instr) : bool := match i with ISet d => Nat.ltb d n | _ => true end.
 Definition wf_def (n : nat) (d : evdef) : bool :=
   forallb fin_instr (e_fin d) && forallb (dest_ok n) (e_body d).
+
+(* ---------- serial processing in the queue modes, read off the global log ----------
+   The scan keeps the set of OPEN bodies as pairs (queue key, arrival number) and, per queue key, a bound
+   below which no body may begin any more.  A body may begin (GBegin) only if no body of the same queue is
+   open and its arrival number is not below the bound (arrival order); every other item must belong to an
+   open body; GEnd closes the body.  [serial_log] = the scan never fails. *)
+Section Serial.
+  Variable defs : list evdef.
+  Variable mode : qmode.
+
+  Definition ekey (e : ev) : nat := qkey mode (e_model (edef defs e)).
+  Definition pair_eqb (p q : nat * nat) : bool := Nat.eqb (fst p) (fst q) && Nat.eqb (snd p) (snd q).
+  Definition gstate : Type := (list (nat * nat) * (nat -> nat))%type.
+  Definition upd (lb : nat -> nat) (k v : nat) : nat -> nat := fun k' => if Nat.eqb k' k then v else lb k'.
+
+  Definition gstep (st : gstate) (it : item) : option gstate :=
+    let (op, lb) := st in
+    match it with
+    | GBegin n e =>
+        let k := ekey e in
+        if existsb (Nat.eqb k) (map fst op) then None
+        else if Nat.leb (lb k) n then Some ((k, n) :: op, upd lb k (S n))
+        else None
+    | GEnd n e _ =>
+        if existsb (pair_eqb (ekey e, n)) op
+        then Some (filter (fun p => negb (pair_eqb (ekey e, n) p)) op, lb)
+        else None
+    | _ => if existsb (Nat.eqb (item_no it)) (map snd op) then Some st else None
+    end.
+
+  Fixpoint gscan (st : gstate) (l : list item) : option gstate :=
+    match l with
+    | [] => Some st
+    | it :: r => match gstep st it with Some st' => gscan st' r | None => None end
+    end.
+
+  Definition gstate0 : gstate := ([], fun _ => 0).
+  Definition serial_log (l : list item) : Prop := gscan gstate0 l <> None.
+End Serial.
